@@ -5,11 +5,12 @@
 export GOFLAGS=-mod=mod GOPROXY=off GOSUMDB=off GOTOOLCHAIN=local GOWORK=off
 D=$(readlink -f "$1"); shift
 V=$(cd "$(dirname "$0")/.." && pwd)
-S=$(mktemp -d /tmp/dv-XXXXXX)
+S=$(mktemp -d /tmp/dv-XXXXXX) || { echo "NOSCRATCH"; exit 5; }
+[ -n "$S" ] && [ -d "$S" ] || { echo "NOSCRATCH"; exit 5; }
 trap 'rm -rf "$S"' EXIT
 rsync -a --exclude .git /repo/ "$S/repo/"
 if ! (cd "$S/repo" && patch -p1 -s --no-backup-if-mismatch < "$D"); then echo "NOAPPLY $D"; exit 3; fi
-if ! (cd "$S/repo" && go build ./... 2>"$S/build.err"); then echo "NOBUILD $D"; head -5 "$S/build.err"; exit 4; fi
+if ! (cd "$S/repo" && go build -trimpath ./... 2>"$S/build.err"); then echo "NOBUILD $D"; head -5 "$S/build.err"; exit 4; fi
 if [ -n "$TESTS" ]; then timeout 240 "$V/scripts/baseline_off.sh" "$S/repo" | tail -3; [ ${PIPESTATUS[0]} -eq 124 ] && echo "baseline: TIMEOUT (tests hang)"; fi
 rc=0
 for id in "$@"; do
